@@ -52,29 +52,32 @@ Theorem c01_shape : forall cfg c l,
 Proof. exact shape. Qed.
 
 (* the converse: a call is answered according to its conversion only — a line for every
-   well-typed call whose value is accepted and non-empty, InvalidInput exactly when the
-   conversion fails or the packed list is empty *)
+   well-typed call whose value is accepted and non-empty, an error exactly when the
+   conversion fails or the packed list is empty: InvalidInput, unless the argument is a
+   user-defined value whose own conversion returned the error [e], which is then reported as it is *)
 Theorem c01_total : forall cfg c,
   (to_value (k_kind c) (k_arg c) = None -> client_line cfg c = None) /\
-  (forall e, to_value (k_kind c) (k_arg c) = Some (inl e) -> client_line cfg c = Some (inl InvalidInput)) /\
+  (forall e, to_value (k_kind c) (k_arg c) = Some (inl e) ->
+             client_line cfg c = Some (inl e) /\ (e = EInvalid \/ k_arg c = AUserErr e)) /\
   (forall v, to_value (k_kind c) (k_arg c) = Some (inr v) -> mv_count v = 0 ->
-             client_line cfg c = Some (inl InvalidInput)) /\
+             client_line cfg c = Some (inl EInvalid)) /\
   (forall v, to_value (k_kind c) (k_arg c) = Some (inr v) -> mv_count v <> 0 ->
              exists l, client_line cfg c = Some (inr l)).
 Proof.
-  intros cfg c. rewrite client_line_cases. repeat split.
+  intros cfg c. rewrite client_line_cases. split; [|split; [|split]].
   - intros ->. reflexivity.
-  - intros e H. rewrite H. rewrite (to_value_err _ _ _ H). reflexivity.
+  - intros e H. split; [rewrite H; reflexivity|exact (to_value_err _ _ _ H)].
   - intros v H Hc. rewrite H, Hc. reflexivity.
   - intros v H Hc. rewrite H. apply Nat.eqb_neq in Hc. rewrite Hc. eexists. reflexivity.
 Qed.
 
 (* the entry points: a call type-checks iff its (kind, argument type) pair is one of the 22
-   impls of client.rs or the argument is a user-defined To*Value type *)
+   impls of client.rs or the argument is a user-defined To*Value type (whatever its conversion
+   returns) *)
 Theorem c01_entry_points : forall k a,
   to_value k a <> None <->
   match a with
-  | AUser _ => True
+  | AUser _ | AUserErr _ => True
   | AI64 _ => k = Counter \/ k = SetK
   | AI32 _ | AU32 _ => k = Counter
   | AU64 _ => k <> SetK
@@ -214,7 +217,7 @@ Theorem c01_refuted_v0 : exists cfg c l v,
   to_value (k_kind c) (k_arg c) = Some (inr v) /\ value_texts v = [] /\
   l = [107%N; 58%N; 124%N; 109%N; 115%N] /\
   option_map p_values (parse_line l) = Some [[]] /\
-  client_line cfg c = Some (inl InvalidInput).
+  client_line cfg c = Some (inl EInvalid).
 Proof.
   exists {| c_prefix := []; c_tags := []; c_container := None |},
          {| k_kind := Timer; k_key := [107%N]; k_arg := AVecU64 []; k_ops := [] |},
@@ -293,7 +296,7 @@ Proof. exact v0_differs_pin. Qed.
    the repaired code reports InvalidInput *)
 Theorem c01_v0_on_empty : forall cfg c v,
   to_value (k_kind c) (k_arg c) = Some (inr v) -> mv_count v = 0 ->
-  client_line cfg c = Some (inl InvalidInput) /\
+  client_line cfg c = Some (inl EInvalid) /\
   value_texts v = [] /\
   client_line_v0 cfg c =
   Some (inr (match c_prefix cfg with
@@ -325,7 +328,7 @@ Example c01_v0_witness :
   client_line_v0 cfg c1 = client_line cfg c1 /\
   client_line cfg c1 = Some (inr [107; 58; 49; 58; 50; 48; 124; 109; 115]%N) /\
   client_line_v0 cfg c0 = Some (inr [107; 58; 124; 104; 124; 35; 116]%N) /\
-  client_line cfg c0 = Some (inl InvalidInput).
+  client_line cfg c0 = Some (inl EInvalid).
 Proof. exact v0_witness. Qed.
 
 (* the count of the entry points (audit A.23): whether a call type-checks depends on the kind
